@@ -1060,6 +1060,15 @@ func (p *RPCCompiler) processRepeatedField(message protoref.Message, fd protoref
 			}
 
 			list.Append(protoref.ValueOfMessage(fieldMsg))
+		case DataTypeEnum:
+			// setValueForKind has no enum case: the GraphQL enum value has to be
+			// mapped to the protobuf enum number like for a singular enum field.
+			val, err := p.getEnumValue(rpcField.EnumName, element)
+			if err != nil {
+				return err
+			}
+
+			list.Append(val)
 		default:
 			list.Append(p.setValueForKind(field.Type, element))
 		}
